@@ -367,7 +367,13 @@ func main() {
 		sem := make(chan struct{}, 8)
 		for i := 0; i < *runs; i++ {
 			n := 1 + rng.Intn(8)
+			if i%16 == 5 {
+				n = []int{64, 257, 300, 1000}[(i/16)%4] // far more runners than items: Do still has to return
+			}
 			g := randomGraph(rng, 2+rng.Intn(7))
+			if i%16 == 11 {
+				g = Graph{Succ: map[string][]string{}, Init: []string{}} // nothing added: Do returns at once
+			}
 			wg.Add(1)
 			sem <- struct{}{}
 			if atomic.LoadInt32(&hung) > 0 {
